@@ -54,6 +54,7 @@ type replayer struct {
 	pkg    *types.Package
 	imports map[string]string
 	err    string
+	streams bool
 }
 
 func (r *replayer) addLeaf(p *pval, t *Term) {
@@ -149,6 +150,49 @@ func (r *replayer) probe(t *Term, typ types.Type, depth int) *pval {
 			p.fields = append(p.fields, fp)
 		}
 		return p
+	case *types.Interface:
+		if !streamLike(u) {
+			r.err = "interface parameter that is not a plain reader/writer: " + typ.String()
+			return nil
+		}
+		r.streams = true
+		p := &pval{typ: typ, kind: "stream"}
+		ref := tb.Acc(t, 1)
+		np := r.boolLeaf(tb.Eq(tb.Acc(t, 0), tb.Int(0)))
+		leaf := func(x *Term) *pval {
+			lp := &pval{kind: "scalar", typ: types.Typ[types.Int]}
+			r.addLeaf(lp, x)
+			return lp
+		}
+		tb.DeclareUF("in_end", "(Ref) (_ BitVec 64)")
+		tb.DeclareUF("in_data", "(Ref) "+string(SBytes))
+		tb.DeclareUF("in_err", "(Ref) Iface")
+		inPos := tb.Select(e.streamHeap(r.st, "in_pos"), ref)
+		inEnd := tb.App("in_end", SBV64, ref)
+		outLen := tb.Select(e.streamHeap(r.st, "out_len"), ref)
+		outCalls := tb.Select(e.streamHeap(r.st, "out_calls"), ref)
+		isEOF := tb.False()
+		if g := e.ioEOF(r.st); g != nil {
+			isEOF = tb.Eq(tb.App("in_err", SIface, ref), g)
+		}
+		p.fields = []*pval{np, leaf(inPos), leaf(inEnd), leaf(outLen), leaf(outCalls), r.boolLeaf(isEOF)}
+		for _, x := range []*Term{inPos, inEnd, outLen, outCalls} {
+			r.extra = append(r.extra, tb.BVCmp("bvsle", tb.BV(0, 64), x), tb.BVCmp("bvsle", x, tb.BV(replayMaxLen, 64)))
+		}
+		r.extra = append(r.extra, tb.BVCmp("bvsle", inPos, inEnd))
+		ind := tb.App("in_data", SBytes, ref)
+		outd := tb.Select(e.streamHeap(r.st, "out_data"), ref)
+		for i := 0; i < replayMaxLen; i++ {
+			bp := &pval{kind: "scalar", typ: types.Typ[types.Uint8]}
+			r.addLeaf(bp, tb.Select(ind, tb.BV(int64(i), 64)))
+			p.elems = append(p.elems, bp)
+		}
+		for i := 0; i < replayMaxLen; i++ {
+			bp := &pval{kind: "scalar", typ: types.Typ[types.Uint8]}
+			r.addLeaf(bp, tb.Select(outd, tb.BV(int64(i), 64)))
+			p.elems = append(p.elems, bp)
+		}
+		return p
 	case *types.Pointer:
 		if _, ok := u.Elem().Underlying().(*types.Struct); !ok {
 			r.err = "pointer to non-struct"
@@ -232,6 +276,24 @@ func (r *replayer) goLit(p *pval) string {
 			parts = append(parts, fmt.Sprintf("%s: %s", st.Field(i).Name(), r.goLit(f)))
 		}
 		return fmt.Sprintf("%s{%s}", r.typeStr(p.typ), strings.Join(parts, ", "))
+	case "stream":
+		if p.fields[0].bval {
+			return "nil"
+		}
+		pos, end, olen, calls := int(p.fields[1].val.Int64()), int(p.fields[2].val.Int64()), int(p.fields[3].val.Int64()), int(p.fields[4].val.Int64())
+		var in, out []string
+		for i := 0; i < end && i < replayMaxLen; i++ {
+			in = append(in, fmt.Sprintf("0x%02x", p.elems[i].val.Int64()))
+		}
+		for i := 0; i < olen && i < replayMaxLen; i++ {
+			out = append(out, fmt.Sprintf("0x%02x", p.elems[replayMaxLen+i].val.Int64()))
+		}
+		errv := "errGhostTransport"
+		if p.fields[5].bval {
+			r.imports["io"] = "io"
+			errv = "io.EOF"
+		}
+		return fmt.Sprintf("&ghostStream{in: []byte{%s}, pos: %d, err: %s, out: []byte{%s}, calls: %d}", strings.Join(in, ", "), pos, errv, strings.Join(out, ", "), calls)
 	case "ptr":
 		if p.fields[0].bval {
 			return fmt.Sprintf("(%s)(nil)", r.typeStr(p.typ))
@@ -557,11 +619,17 @@ func (e *Engine) tryReplay(or *OblResult, part *FuncResult, repo, dir string) *r
 		}
 		names[n] = true
 		argNames = append(argNames, n)
-		fmt.Fprintf(&body, "\t%s := %s\n", n, r.goLit(pvs[i]))
+		if pvs[i].kind == "stream" {
+			fmt.Fprintf(&body, "\tvar %s %s = %s\n", n, r.typeStr(p.Type()), r.goLit(pvs[i]))
+		} else {
+			fmt.Fprintf(&body, "\t%s := %s\n", n, r.goLit(pvs[i]))
+		}
 		// saved copy for old(...)
 		switch pvs[i].kind {
 		case "bytes":
 			fmt.Fprintf(&body, "\told_%s := %s\n\tif old_%s != nil {\n\t\told_%s = append(%s{}, %s...)\n\t}\n", n, n, n, n, r.typeStr(p.Type()), n)
+		case "stream":
+			fmt.Fprintf(&body, "\tvar old_%s %s = cloneGhost(%s)\n", n, r.typeStr(p.Type()), n)
 		case "ptr":
 			fmt.Fprintf(&body, "\told_%s := %s\n\tif %s != nil {\n\t\ttmp_%s := *%s\n\t\told_%s = &tmp_%s\n\t}\n", n, n, n, n, n, n, n)
 		default:
@@ -670,3 +738,29 @@ func firstLineWith(s, sub string) string {
 }
 
 var _ = ssa.NaiveForm
+
+// streamLike: an interface whose methods are among Read and Write (io.Reader, io.Writer, io.ReadWriter).
+func streamLike(it *types.Interface) bool {
+	if it.NumMethods() == 0 {
+		return false
+	}
+	for i := 0; i < it.NumMethods(); i++ {
+		n := it.Method(i).Name()
+		if n != "Read" && n != "Write" {
+			return false
+		}
+	}
+	return true
+}
+
+// ioEOF: the term of the package-level value io.EOF (nil if package io is not loaded).
+func (e *Engine) ioEOF(st *State) *Term {
+	for _, p := range e.prog.AllPackages() {
+		if p.Pkg.Path() == "io" {
+			if g, ok := p.Members["EOF"].(*ssa.Global); ok {
+				return e.globalValue(st, g)
+			}
+		}
+	}
+	return nil
+}
